@@ -1537,3 +1537,24 @@ func lastStoreOnPath(cell *ssa.Alloc, load ssa.Instruction, path BlockPath) ssa.
 	}
 	return nil
 }
+
+// StoresToCellFields returns the values stored into fields of a local struct cell (a composite
+// literal under construction): every `cell.f = v`.
+func StoresToCellFields(a *ssa.Alloc) []ssa.Value {
+	var out []ssa.Value
+	if a.Referrers() == nil {
+		return nil
+	}
+	for _, r := range *a.Referrers() {
+		fa, ok := r.(*ssa.FieldAddr)
+		if !ok || fa.Referrers() == nil {
+			continue
+		}
+		for _, u := range *fa.Referrers() {
+			if st, ok := u.(*ssa.Store); ok && st.Addr == ssa.Value(fa) {
+				out = append(out, st.Val)
+			}
+		}
+	}
+	return out
+}
